@@ -50,6 +50,20 @@ pub fn start_stall_watchdog(property: &str, out: PathBuf, limit_s: u64) {
     std::thread::spawn(move || {
         let mut last = PROGRESS.load(std::sync::atomic::Ordering::Relaxed);
         let mut since = std::time::Instant::now();
+        // CPU time and state of the main thread (tid == pid): a stall is judged by what that thread did,
+        // not by the wall clock alone
+        let main_tid = std::process::id();
+        let main_stat = move || -> (f64, char, bool) {
+            let st = std::fs::read_to_string(format!("/proc/self/task/{}/stat", main_tid)).unwrap_or_default();
+            let rest = st.rsplit_once(')').map(|x| x.1.to_string()).unwrap_or_default();
+            let f: Vec<&str> = rest.split_whitespace().collect();
+            let state = f.first().and_then(|x| x.chars().next()).unwrap_or('?');
+            let ticks: f64 = f.get(11).and_then(|x| x.parse::<f64>().ok()).unwrap_or(0.0) + f.get(12).and_then(|x| x.parse::<f64>().ok()).unwrap_or(0.0);
+            let in_futex = std::fs::read_to_string(format!("/proc/self/task/{}/syscall", main_tid)).map(|t| t.starts_with("202 ")).unwrap_or(false);
+            (ticks / 100.0, state, in_futex)
+        };
+        let mut cpu_at_progress = main_stat().0;
+        let mut futex_samples = 0u64;
         loop {
             std::thread::sleep(std::time::Duration::from_millis(1000));
             // anonymous memory of this worker (mapped database files are not counted): a seeded change
@@ -68,13 +82,39 @@ pub fn start_stall_watchdog(property: &str, out: PathBuf, limit_s: u64) {
                 std::process::exit(0);
             }
             let now = PROGRESS.load(std::sync::atomic::Ordering::Relaxed);
+            let (cpu, state, in_futex) = main_stat();
             if now != last {
                 last = now;
                 since = std::time::Instant::now();
+                cpu_at_progress = cpu;
+                futex_samples = 0;
                 continue;
+            }
+            if state == 'S' && in_futex {
+                futex_samples += 1;
+            } else {
+                futex_samples = 0;
             }
             if since.elapsed().as_secs() >= limit_s {
                 let mut sh = PARTIAL.lock().map(|g| g.clone()).unwrap_or(None).unwrap_or_else(|| Shard::new(&property));
+                let spent = cpu - cpu_at_progress;
+                // (a) the thread burnt CPU for (nearly) the whole window inside ONE step: a loop that does not end -
+                //     machine load cannot produce that, it only makes a step take longer on the wall clock;
+                // (b) the thread has been asleep in a futex wait for the whole window without using CPU: it waits
+                //     for a lock that nobody will release (single-threaded workers: a self-deadlock).
+                let verdict = if spent >= 0.66 * limit_s as f64 {
+                    Some(("non-termination:a-step-consumed-its-whole-cpu-budget", format!("one step (a call into the database or its verification) used {:.0} s of CPU time without finishing", spent)))
+                } else if futex_samples + 2 >= limit_s && spent < 2.0 {
+                    Some(("non-termination:blocked-on-a-lock-nobody-releases", format!("one step has been asleep in a lock wait for {} s using {:.1} s of CPU time", limit_s, spent)))
+                } else {
+                    None
+                };
+                if let Some((sig, detail)) = verdict {
+                    let case = std::env::var("VH_CURRENT").ok().and_then(|p| std::fs::read(p).ok()).and_then(|b| serde_json::from_slice::<serde_json::Value>(&b).ok()).unwrap_or(serde_json::Value::Null);
+                    let rp = out.with_extension("stall.json");
+                    let _ = std::fs::write(&rp, serde_json::to_vec_pretty(&serde_json::json!({"property": property, "signature": sig, "detail": detail, "case": case})).unwrap());
+                    sh.violations.push(ViolationOut { sig: sig.to_string(), detail: detail.clone(), replay: rp.to_string_lossy().to_string() });
+                }
                 sh.inconclusive(format!("worker stalled: one step (a call into the database or its verification) did not finish within {} s; the violations recorded before the stall are reported, the rest of this worker's cases were not run", limit_s));
                 sh.counters.insert("workers_stalled".into(), 1);
                 sh.write(&out);
